@@ -50,7 +50,7 @@ def build_and_test(d):
 def demo_cmd(src, d):
     """Standard build line for a demo: wraps are derived from the __wrap_ symbols it defines."""
     if os.path.exists(os.path.join(src, "BUILD")):
-        return open(os.path.join(src, "BUILD")).read().strip().replace("{d}", d)
+        return open(os.path.join(src, "BUILD")).read().strip().replace("{d}/_build", "{d}/_b").replace("{d}", d)
     cpp = os.path.exists(os.path.join(src, "demo.cpp"))
     demo = "demo.cpp" if cpp else "demo.c"
     text = open(os.path.join(src, demo)).read()
